@@ -29,6 +29,7 @@ EXPLANATION = (
     "Density-matrix leg: the same step on a symbolic Hermitian density matrix (exact rational arithmetic for float "
     "constants) against explicit textbook formulas. Cross tie: row rule == conjugation by the DM backend's unitary. "
     "By induction over Inv / over the set of density matrices this covers circuits of any length within the size bound.")
+CROSSHAIR = ["xh/g_function_contract.py"]
 ASSUMPTIONS = [
     "A1 z3 sound", "A2 numpy object-array semantics", "A4 exact rational arithmetic stands in for float products (float constants by their exact value)",
     "Inv as in C07 is the induction hypothesis of the stabilizer leg",
